@@ -63,7 +63,9 @@ def gen_templates(rng, n):
         tid += rng.choice([1, 1, 3, 17])
         off = 0
         nm = rng.choice([1, 2, 3, 4, 5, 7])
-        names = rng.sample(["Val", "count", "x", "Y1", "flag", "mode", "Arr", "inner", "txt", "spare", "LEN", "DATA", "Speed_Ref"], nm)
+        # CTL / Control are ordinary, visible member names in a user type (they are private only in predefined types)
+        names = rng.sample(["Val", "count", "x", "Y1", "flag", "mode", "Arr", "inner", "txt", "spare", "LEN", "DATA", "Speed_Ref",
+                            "CTL", "Control"], nm)
         for j, mn in enumerate(names):
             r = rng.random()
             if r < 0.25:
@@ -87,6 +89,15 @@ def gen_templates(rng, n):
             off += sz * max(arr, 1)
         t.size = max(4, (off + 3) // 4 * 4)
         out.append(t)
+    # the two ends of the user-defined template id range [0x100, 0xEFF]
+    users = [t for t in out if not getattr(t, "is_string", False)]
+    used = {t.tid for t in out}
+    for edge in (0x100, 0xEFF):
+        if users and edge not in used and rng.random() < 0.3:
+            t = rng.choice(users)
+            used.discard(t.tid)
+            t.tid = edge
+            used.add(edge)
     return out
 
 
